@@ -1,5 +1,879 @@
 import PyCliffordModel.Spec.Maps
-/-! # Proofs/Z2Inv — Gauss–Jordan soundness for `z2inv` -/
+/-! # Proofs/Z2Inv — Gauss–Jordan soundness for `z2inv`
+
+Layout:
+* §1 `xsum` (GF(2) finite sums) and function-level matrices `Mat := Nat → Nat → Bool` with `mmul`;
+* §2 list ↔ function bridge (`BMat.get` of `xorFrom`, `swapFrom`, `elimBelow`, `elimAbove`, `bmul`, `bident`);
+* §3 row operations as left multiplication by involutive matrices, the payload invariant `Pay`;
+* §4 echelon invariants through the forward / backward pass;
+* §5 the final statements about `z2inv` (`z2inv_left`, `z2inv_right`, `z2inv_complete`);
+* §6 general facts about `bmul` (associativity, identity laws).
+-/
 namespace PC
+namespace Z2
+
+/-! ## §1 sums over GF(2) -/
+
+abbrev Mat := Nat → Nat → Bool
+
+def xsum (f : Nat → Bool) : Nat → Bool
+  | 0 => false
+  | n + 1 => xsum f n != f n
+
+theorem xsum_congr (f g : Nat → Bool) (n : Nat) (h : ∀ k, k < n → f k = g k) : xsum f n = xsum g n := by
+  induction n with
+  | zero => rfl
+  | succ n ih => simp only [xsum]; rw [ih (fun k hk => h k (by omega)), h n (by omega)]
+
+theorem xsum_false (f : Nat → Bool) (n : Nat) (h : ∀ k, k < n → f k = false) : xsum f n = false := by
+  induction n with
+  | zero => rfl
+  | succ n ih => simp only [xsum]; rw [ih (fun k hk => h k (by omega)), h n (by omega)]; rfl
+
+theorem xsum_add (f g : Nat → Bool) (n : Nat) :
+    xsum (fun k => f k != g k) n = (xsum f n != xsum g n) := by
+  induction n with
+  | zero => rfl
+  | succ n ih =>
+    simp only [xsum, ih]
+    cases xsum f n <;> cases xsum g n <;> cases f n <;> cases g n <;> rfl
+
+theorem xsum_mul_right (f : Nat → Bool) (b : Bool) (n : Nat) :
+    xsum (fun k => f k && b) n = (xsum f n && b) := by
+  induction n with
+  | zero => cases b <;> rfl
+  | succ n ih =>
+    simp only [xsum, ih]
+    cases xsum f n <;> cases f n <;> cases b <;> rfl
+
+theorem xsum_mul_left (f : Nat → Bool) (b : Bool) (n : Nat) :
+    xsum (fun k => b && f k) n = (b && xsum f n) := by
+  induction n with
+  | zero => cases b <;> rfl
+  | succ n ih =>
+    simp only [xsum, ih]
+    cases xsum f n <;> cases f n <;> cases b <;> rfl
+
+/-- `Σ_{k<n} [k = j] ∧ f k = f j` for `j < n` -/
+theorem xsum_unit (f : Nat → Bool) (j n : Nat) (hj : j < n) : xsum (fun k => (k == j) && f k) n = f j := by
+  induction n with
+  | zero => omega
+  | succ n ih =>
+    simp only [xsum]
+    by_cases h : j = n
+    · subst h
+      rw [xsum_false _ j (fun k hk => by
+        have : (k == j) = false := by simp; omega
+        rw [this]; rfl)]
+      simp
+    · have hne : (n == j) = false := by simp; omega
+      rw [ih (by omega), hne]; simp
+
+theorem xsum_unit' (f : Nat → Bool) (j n : Nat) (hj : j < n) : xsum (fun k => (j == k) && f k) n = f j := by
+  rw [← xsum_unit f j n hj]
+  apply xsum_congr; intro k _
+  have : (j == k) = (k == j) := by
+    cases h : (k == j) <;> simp at h ⊢ <;> omega
+  rw [this]
+
+theorem xsum_unit_r (f : Nat → Bool) (j n : Nat) (hj : j < n) : xsum (fun k => f k && (k == j)) n = f j := by
+  rw [← xsum_unit f j n hj]
+  apply xsum_congr; intro k _
+  cases f k <;> cases (k == j) <;> rfl
+
+/-- a sum with a single possibly non-zero term -/
+theorem xsum_single (f : Nat → Bool) (j n : Nat) (hj : j < n) (h : ∀ k, k < n → k ≠ j → f k = false) :
+    xsum f n = f j := by
+  rw [← xsum_unit f j n hj]
+  apply xsum_congr; intro k hk
+  by_cases e : k = j
+  · subst e; simp
+  · rw [h k hk e]
+    cases (k == j) <;> rfl
+
+theorem xsum_shift (f : Nat → Bool) (n : Nat) :
+    xsum f (n + 1) = (f 0 != xsum (fun k => f (k + 1)) n) := by
+  induction n with
+  | zero => simp [xsum]
+  | succ n ih =>
+    rw [xsum, ih]
+    simp only [xsum]
+    cases f 0 <;> cases xsum (fun k => f (k + 1)) n <;> cases f (n + 1) <;> rfl
+
+theorem xsum_swap (h : Nat → Nat → Bool) (n m : Nat) :
+    xsum (fun k => xsum (fun j => h k j) m) n = xsum (fun j => xsum (fun k => h k j) n) m := by
+  induction n with
+  | zero =>
+    simp only [xsum]
+    exact (xsum_false _ m (fun _ _ => rfl)).symm
+  | succ n ih =>
+    simp only [xsum]
+    rw [ih, ← xsum_add]
+
+/-- matrix product with inner dimension `n` (rows and columns unrestricted) -/
+def mmul (n : Nat) (X Y : Mat) : Mat := fun r c => xsum (fun k => X r k && Y k c) n
+
+def ident : Mat := fun r c => r == c
+
+theorem mmul_assoc (b m : Nat) (X Y Z : Mat) (r c : Nat) :
+    mmul m (mmul b X Y) Z r c = mmul b X (mmul m Y Z) r c := by
+  simp only [mmul]
+  have e1 : ∀ k, (xsum (fun j => X r j && Y j k) b && Z k c) = xsum (fun j => X r j && Y j k && Z k c) b :=
+    fun k => (xsum_mul_right _ _ _).symm
+  have e2 : ∀ j, (X r j && xsum (fun k => Y j k && Z k c) m) = xsum (fun k => X r j && Y j k && Z k c) m := by
+    intro j
+    rw [← xsum_mul_left]
+    apply xsum_congr; intro k _
+    cases X r j <;> cases Y j k <;> cases Z k c <;> rfl
+  rw [xsum_congr _ _ m (fun k _ => e1 k), xsum_congr _ _ b (fun j _ => e2 j)]
+  exact xsum_swap (fun k j => X r j && Y j k && Z k c) m b
+
+theorem mmul_congr_left (n : Nat) (X X' Y : Mat) (r c : Nat) (h : ∀ k, k < n → X r k = X' r k) :
+    mmul n X Y r c = mmul n X' Y r c := by
+  simp only [mmul]; apply xsum_congr; intro k hk; rw [h k hk]
+
+theorem mmul_congr_right (n : Nat) (X Y Y' : Mat) (r c : Nat) (h : ∀ k, k < n → Y k c = Y' k c) :
+    mmul n X Y r c = mmul n X Y' r c := by
+  simp only [mmul]; apply xsum_congr; intro k hk; rw [h k hk]
+
+theorem mmul_ident_left (n : Nat) (X : Mat) (r c : Nat) (hr : r < n) : mmul n ident X r c = X r c := by
+  simp only [mmul, ident]; exact xsum_unit' (fun k => X k c) r n hr
+
+theorem mmul_ident_right (n : Nat) (X : Mat) (r c : Nat) (hc : c < n) : mmul n X ident r c = X r c := by
+  simp only [mmul, ident]; exact xsum_unit_r (fun k => X r k) c n hc
+
+/-! ## §2 list ↔ function bridge -/
+
+def Shape (a : BMat) (nr nc : Nat) : Prop := a.length = nr ∧ ∀ j, j < nr → (a.getD j []).length = nc
+
+theorem getD_take_drop (x y : List Bool) (i c : Nat) (h : x.length = y.length) :
+    (x.take i ++ y.drop i).getD c false = if c < i then x.getD c false else y.getD c false := by
+  simp only [List.getD_eq_getElem?_getD, List.getElem?_append, List.length_take, List.getElem?_take,
+    List.getElem?_drop]
+  by_cases h1 : c < i
+  · by_cases h2 : c < x.length
+    · have : c < min i x.length := by omega
+      simp [h1, this]
+    · have : ¬ c < min i x.length := by omega
+      simp [h1, this]
+      rw [List.getElem?_eq_none (by omega), List.getElem?_eq_none (by omega)]
+  · have : ¬ c < min i x.length := by omega
+    simp only [h1, this, if_false]
+    by_cases h2 : i ≤ x.length
+    · have : i + (c - min i x.length) = c := by omega
+      rw [this]
+    · rw [List.getElem?_eq_none (by omega), List.getElem?_eq_none (by omega)]
+
+theorem length_xorFrom (i : Nat) (x y : List Bool) (h : x.length = y.length) :
+    (xorFrom i x y).length = x.length := by
+  simp [xorFrom]; omega
+
+theorem getD_zipWith_xor (x y : List Bool) (c : Nat) (h : x.length = y.length) :
+    (List.zipWith (fun a b => a != b) x y).getD c false = (x.getD c false != y.getD c false) := by
+  induction x generalizing y c with
+  | nil => cases y with
+    | nil => simp
+    | cons _ _ => simp at h
+  | cons a as ih => cases y with
+    | nil => simp at h
+    | cons b bs =>
+      cases c with
+      | zero => simp
+      | succ c => simpa using ih bs c (by simpa using h)
+
+theorem getD_xorFrom (i : Nat) (x y : List Bool) (c : Nat) (h : x.length = y.length) :
+    (xorFrom i x y).getD c false = (x.getD c false != (decide (i ≤ c) && y.getD c false)) := by
+  induction i generalizing x y c with
+  | zero => simpa [xorFrom] using getD_zipWith_xor x y c h
+  | succ i ih =>
+    cases x with
+    | nil => cases y with
+      | nil => simp [xorFrom]
+      | cons _ _ => simp at h
+    | cons a as => cases y with
+      | nil => simp at h
+      | cons b bs =>
+        cases c with
+        | zero => simp [xorFrom]
+        | succ c =>
+          have := ih as bs c (by simpa using h)
+          simpa [xorFrom] using this
+
+theorem getD_mapIdx (a : BMat) (f : Nat → List Bool → List Bool) (j : Nat) (hj : j < a.length) :
+    (a.mapIdx f).getD j [] = f j (a.getD j []) := by
+  simp [List.getD_eq_getElem?_getD, List.getElem?_mapIdx, List.getElem?_eq_getElem hj]
+
+theorem getD_mapIdx_ge (a : BMat) (f : Nat → List Bool → List Bool) (j : Nat) (hj : a.length ≤ j) :
+    (a.mapIdx f).getD j [] = [] := by
+  simp [List.getD_eq_getElem?_getD, List.getElem?_mapIdx, List.getElem?_eq_none hj]
+
+theorem get_ge (a : BMat) (j c : Nat) (hj : a.length ≤ j) : a.get j c = false := by
+  simp [BMat.get, List.getD_eq_getElem?_getD, List.getElem?_eq_none hj]
+
+/-- common form of `elimBelow` / `elimAbove` -/
+def elimP (p : Nat → Bool) (i : Nat) (ar : List Bool) (a : BMat) : BMat :=
+  a.mapIdx fun j row => if p j && row.getD i false then xorFrom i row ar else row
+
+theorem get_elimP (p : Nat → Bool) (i : Nat) (ar : List Bool) (a : BMat) (nr nc : Nat) (hs : Shape a nr nc)
+    (har : ar.length = nc) (j c : Nat) :
+    (elimP p i ar a).get j c = (a.get j c != (p j && a.get j i && decide (i ≤ c) && ar.getD c false)) := by
+  by_cases hj : j < a.length
+  · simp only [BMat.get, elimP, getD_mapIdx _ _ _ hj]
+    have hl : (a.getD j []).length = ar.length := by rw [har]; exact hs.2 j (by rw [← hs.1]; exact hj)
+    cases hp : (p j && (a.getD j []).getD i false)
+    · simp
+    · simp only [if_true, getD_xorFrom _ _ _ _ hl]
+      simp
+  · have hj' : a.length ≤ j := by omega
+    rw [get_ge _ _ _ (by simpa [elimP] using hj'), get_ge _ _ _ hj', get_ge _ _ _ hj']
+    simp
+
+theorem shape_elimP (p : Nat → Bool) (i : Nat) (ar : List Bool) (a : BMat) (nr nc : Nat) (hs : Shape a nr nc)
+    (har : ar.length = nc) : Shape (elimP p i ar a) nr nc := by
+  refine ⟨by simpa [elimP] using hs.1, fun j hj => ?_⟩
+  have hj' : j < a.length := by rw [hs.1]; exact hj
+  simp only [elimP, getD_mapIdx _ _ _ hj']
+  split
+  · rw [length_xorFrom _ _ _ (by rw [har]; exact hs.2 j hj)]; exact hs.2 j hj
+  · exact hs.2 j hj
+
+theorem elimBelow_eq (i r : Nat) (a : BMat) : elimBelow i r a = elimP (fun j => decide (r < j)) i (a.getD r []) a := rfl
+theorem elimAbove_eq (i : Nat) (a : BMat) : elimAbove i a = elimP (fun j => decide (j < i)) i (a.getD i []) a := rfl
+
+theorem getD_set2 (a : BMat) (r k : Nat) (X Y : List Bool) (hr : r < a.length) (hk : k < a.length) (j : Nat) :
+    ((a.set r X).set k Y).getD j [] = if j = k then Y else if j = r then X else a.getD j [] := by
+  simp only [List.getD_eq_getElem?_getD, List.getElem?_set, List.length_set]
+  by_cases h1 : j = k
+  · subst h1; simp [hk]
+  · have h1' : ¬ k = j := fun e => h1 e.symm
+    by_cases h2 : j = r
+    · subst h2; simp [h1, h1', hr]
+    · have h2' : ¬ r = j := fun e => h2 e.symm
+      simp [h1, h1', h2, h2']
+
+theorem get_swapFrom (i r k : Nat) (a : BMat) (nr nc : Nat) (hs : Shape a nr nc) (hr : r < nr) (hk : k < nr)
+    (j c : Nat) :
+    (swapFrom i r k a).get j c =
+      if i ≤ c then (if j = k then a.get r c else if j = r then a.get k c else a.get j c) else a.get j c := by
+  have hlr := hs.2 r hr
+  have hlk := hs.2 k hk
+  rw [← hs.1] at hr hk
+  simp only [BMat.get, swapFrom, getD_set2 _ _ _ _ _ hr hk]
+  by_cases h1 : j = k
+  · subst h1
+    simp only [if_true, getD_take_drop _ _ _ _ (hlk.trans hlr.symm)]
+    by_cases hc : i ≤ c
+    · have : ¬ c < i := by omega
+      simp [hc, this]
+    · have : c < i := by omega
+      simp [hc, this]
+  · simp only [h1, if_false]
+    by_cases h2 : j = r
+    · subst h2
+      simp only [if_true, getD_take_drop _ _ _ _ (hlr.trans hlk.symm)]
+      by_cases hc : i ≤ c
+      · have : ¬ c < i := by omega
+        simp [hc, this]
+      · have : c < i := by omega
+        simp [hc, this]
+    · simp [h2]
+
+theorem shape_swapFrom (i r k : Nat) (a : BMat) (nr nc : Nat) (hs : Shape a nr nc) (hr : r < nr) (hk : k < nr) :
+    Shape (swapFrom i r k a) nr nc := by
+  have hlr := hs.2 r hr
+  have hlk := hs.2 k hk
+  refine ⟨by simpa [swapFrom] using hs.1, fun j hj => ?_⟩
+  rw [← hs.1] at hr hk
+  simp only [swapFrom, getD_set2 _ _ _ _ _ hr hk]
+  split
+  · simp only [List.length_append, List.length_take, List.length_drop]; omega
+  · split
+    · simp only [List.length_append, List.length_take, List.length_drop]; omega
+    · exact hs.2 j hj
+
+theorem dotB_eq_xsum (x y : List Bool) (m : Nat) (h : x.length ≤ m) :
+    dotB x y = xsum (fun k => x.getD k false && y.getD k false) m := by
+  induction x generalizing y m with
+  | nil => rw [xsum_false _ _ (fun k _ => by simp)]; simp [dotB]
+  | cons a as ih =>
+    cases y with
+    | nil => rw [xsum_false _ _ (fun k _ => by simp)]; simp [dotB]
+    | cons b bs =>
+      cases m with
+      | zero => simp at h
+      | succ m =>
+        rw [xsum_shift]
+        simp only [dotB, List.getD_cons_zero, List.getD_cons_succ]
+        rw [ih bs m (by simpa using h)]
+
+theorem getD_colB (A : BMat) (c k : Nat) : (colB A c).getD k false = A.get k c := by
+  simp only [colB, BMat.get, List.getD_eq_getElem?_getD, List.getElem?_map]
+  cases A[k]? <;> simp
+
+theorem get_bmul (A B : BMat) (m q r c : Nat) (hc : c < m) (hq : (A.getD r []).length ≤ q) :
+    (bmul A B m).get r c = mmul q A.get B.get r c := by
+  by_cases hr : r < A.length
+  · have : (bmul A B m).getD r [] = (List.range m).map fun j => dotB (A.getD r []) (colB B j) := by
+      simp [bmul, List.getD_eq_getElem?_getD, List.getElem?_map, List.getElem?_eq_getElem hr]
+    simp only [BMat.get, this]
+    simp only [List.getD_eq_getElem?_getD (l := List.map _ _), List.getElem?_map, List.getElem?_range hc,
+      Option.map_some, Option.getD_some]
+    rw [dotB_eq_xsum _ _ q hq]
+    simp only [mmul, getD_colB, BMat.get]
+  · have hr' : A.length ≤ r := by omega
+    rw [get_ge _ _ _ (by simpa [bmul] using hr')]
+    simp only [mmul]
+    rw [xsum_false _ _ (fun k _ => by rw [get_ge _ _ _ hr']; rfl)]
+
+theorem shape_bmul (A B : BMat) (m : Nat) : Shape (bmul A B m) A.length m := by
+  refine ⟨by simp [bmul], fun j hj => ?_⟩
+  simp [bmul, List.getD_eq_getElem?_getD, List.getElem?_map, List.getElem?_eq_getElem hj]
+
+theorem shape_bident (n : Nat) : Shape (bident n) n n := by
+  refine ⟨by simp [bident], fun j hj => ?_⟩
+  simp [bident, unitRow, List.getD_eq_getElem?_getD, List.getElem?_map, List.getElem?_range hj]
+
+theorem get_bident (n r c : Nat) (hr : r < n) (hc : c < n) : (bident n).get r c = ident r c := by
+  simp only [BMat.get, bident, unitRow, ident, List.getD_eq_getElem?_getD, List.getElem?_map,
+    List.getElem?_range hr, List.getElem?_range hc, Option.map_some, Option.getD_some]
+  exact BEq.comm
+
+theorem shape_of_isSquare (A : BMat) (n : Nat) (h : IsSquare A n) : Shape A n n := by
+  refine ⟨h.1, fun j hj => ?_⟩
+  have hj' : j < A.length := by rw [h.1]; exact hj
+  have : A.getD j [] = A[j] := by simp [List.getD_eq_getElem?_getD, List.getElem?_eq_getElem hj']
+  rw [this]; exact h.2 _ (List.getElem_mem hj')
+
+theorem isSquare_of_shape (A : BMat) (n : Nat) (h : Shape A n n) : IsSquare A n := by
+  refine ⟨h.1, fun row hrow => ?_⟩
+  obtain ⟨j, hj, e⟩ := List.mem_iff_getElem.mp hrow
+  have := h.2 j (by rw [← h.1]; exact hj)
+  have e2 : A.getD j [] = A[j] := by simp [List.getD_eq_getElem?_getD, List.getElem?_eq_getElem hj]
+  rw [e2, e] at this; exact this
+
+theorem BMat_ext (X Y : BMat) (n m : Nat) (hX : Shape X n m) (hY : Shape Y n m)
+    (h : ∀ r, r < n → ∀ c, c < m → X.get r c = Y.get r c) : X = Y := by
+  apply List.ext_getElem (by rw [hX.1, hY.1])
+  intro r h1 h2
+  have eX : X.getD r [] = X[r] := by simp [List.getD_eq_getElem?_getD, List.getElem?_eq_getElem h1]
+  have eY : Y.getD r [] = Y[r] := by simp [List.getD_eq_getElem?_getD, List.getElem?_eq_getElem h2]
+  have hr : r < n := by rw [← hX.1]; exact h1
+  have lX := hX.2 r hr
+  have lY := hY.2 r hr
+  rw [eX] at lX; rw [eY] at lY
+  apply List.ext_getElem (by rw [lX, lY])
+  intro c h3 h4
+  have := h r hr c (by rw [← lX]; exact h3)
+  simp only [BMat.get, eX, eY, List.getD_eq_getElem?_getD, List.getElem?_eq_getElem h3,
+    List.getElem?_eq_getElem h4, Option.getD_some] at this
+  exact this
+
+
+/-! ## §3 row operations as involutive matrices; the payload invariant -/
+
+/-- row-addition matrix: row `r` receives row `m` whenever `p r` -/
+def addE (p : Nat → Bool) (m : Nat) : Mat := fun r k => (r == k) != (p r && (k == m))
+
+theorem mmul_addE (n : Nat) (p : Nat → Bool) (m : Nat) (X : Mat) (r c : Nat) (hr : r < n) (hm : m < n) :
+    mmul n (addE p m) X r c = (X r c != (p r && X m c)) := by
+  simp only [mmul, addE]
+  have e : ∀ k, (((r == k) != (p r && (k == m))) && X k c) =
+      (((r == k) && X k c) != ((k == m) && (p r && X k c))) := by
+    intro k; cases (r == k) <;> cases p r <;> cases (k == m) <;> cases X k c <;> rfl
+  rw [xsum_congr _ _ n (fun k _ => e k), xsum_add, xsum_unit' (fun k => X k c) r n hr,
+    xsum_unit (fun k => p r && X k c) m n hm]
+
+theorem addE_invol (n : Nat) (p : Nat → Bool) (m : Nat) (hm : m < n) (hp : p m = false) (r c : Nat)
+    (hr : r < n) : mmul n (addE p m) (addE p m) r c = ident r c := by
+  rw [mmul_addE n p m _ r c hr hm]
+  simp only [addE, ident, hp]
+  have : (m == c) = (c == m) := BEq.comm
+  rw [this]
+  cases (r == c) <;> cases p r <;> cases (c == m) <;> rfl
+
+def swapσ (i k j : Nat) : Nat := if j = k then i else if j = i then k else j
+
+def swapE (i k : Nat) : Mat := fun r c => (c == swapσ i k r)
+
+theorem swapσ_lt (n i k j : Nat) (hi : i < n) (hk : k < n) (hj : j < n) : swapσ i k j < n := by
+  unfold swapσ; split
+  · exact hi
+  · split
+    · exact hk
+    · exact hj
+
+theorem swapσ_invol (i k j : Nat) : swapσ i k (swapσ i k j) = j := by
+  unfold swapσ
+  by_cases h1 : j = k
+  · by_cases h2 : i = k <;> simp [h1, h2]
+  · by_cases h2 : j = i
+    · simp [h2]
+    · simp [h1, h2]
+
+theorem mmul_swapE (n i k : Nat) (X : Mat) (r c : Nat) (hi : i < n) (hk : k < n) (hr : r < n) :
+    mmul n (swapE i k) X r c = X (swapσ i k r) c := by
+  simp only [mmul, swapE]
+  exact xsum_unit (fun k => X k c) _ n (swapσ_lt n i k r hi hk hr)
+
+theorem swapE_invol (n i k : Nat) (hi : i < n) (hk : k < n) (r c : Nat) (hr : r < n) :
+    mmul n (swapE i k) (swapE i k) r c = ident r c := by
+  rw [mmul_swapE n i k _ r c hi hk hr]
+  simp only [swapE, ident, swapσ_invol]
+  exact BEq.comm
+
+/-- payload invariant: the current augmented matrix is `T·a0` with `T` left-invertible -/
+def Pay (n : Nat) (a0 a : Mat) : Prop :=
+  ∃ T S : Mat, (∀ r, r < n → ∀ c, c < n → mmul n S T r c = ident r c) ∧
+    ∀ r, r < n → ∀ c, a r c = mmul n T a0 r c
+
+theorem pay_init (n : Nat) (a0 : Mat) : Pay n a0 a0 :=
+  ⟨ident, ident, fun r hr c _ => mmul_ident_left n ident r c hr, fun r hr c => (mmul_ident_left n a0 r c hr).symm⟩
+
+theorem pay_rowop (n : Nat) (a0 a a' E : Mat)
+    (hE : ∀ r, r < n → ∀ c, c < n → mmul n E E r c = ident r c)
+    (h : ∀ r, r < n → ∀ c, a' r c = mmul n E a r c) (hp : Pay n a0 a) : Pay n a0 a' := by
+  obtain ⟨T, S, hST, hT⟩ := hp
+  refine ⟨mmul n E T, mmul n S E, ?_, ?_⟩
+  · intro r hr c hc
+    rw [mmul_assoc, ← hST r hr c hc]
+    apply mmul_congr_right
+    intro k hk
+    rw [← mmul_assoc, mmul_congr_left n _ ident T k c (fun j hj => hE k hk j hj), mmul_ident_left n T k c hk]
+  · intro r hr c
+    rw [h r hr c, mmul_assoc]
+    apply mmul_congr_right
+    intro k hk; exact hT k hk c
+
+
+/-! ## §4 echelon invariants through the forward / backward pass -/
+
+structure Ech (n m : Nat) (a : BMat) : Prop where
+  shape : Shape a n (n + n)
+  diag : ∀ c, c < m → a.get c c = true
+  low : ∀ c, c < m → ∀ r, c < r → r < n → a.get r c = false
+
+theorem findPivot_some (a : BMat) (i k d k' : Nat) (h : findPivot a i k d = some k') :
+    k ≤ k' ∧ k' < k + d ∧ a.get k' i = true := by
+  induction d generalizing k with
+  | zero => simp [findPivot] at h
+  | succ d ih =>
+    simp only [findPivot] at h
+    by_cases hk : a.get k i = true
+    · simp only [hk, if_true, Option.some.injEq] at h; subst h; exact ⟨Nat.le_refl _, by omega, hk⟩
+    · simp only [hk] at h
+      have := ih (k + 1) h
+      exact ⟨by omega, by omega, this.2.2⟩
+
+theorem findPivot_none (a : BMat) (i k d : Nat) (h : findPivot a i k d = none) :
+    ∀ r, k ≤ r → r < k + d → a.get r i = false := by
+  induction d generalizing k with
+  | zero => intro r h1 h2; omega
+  | succ d ih =>
+    simp only [findPivot] at h
+    by_cases hk : a.get k i = true
+    · simp [hk] at h
+    · simp only [hk] at h
+      intro r h1 h2
+      by_cases e : r = k
+      · subst e; simpa using hk
+      · exact ih (k + 1) h r (by omega) (by omega)
+
+theorem elimBelow_step (n m : Nat) (a : BMat) (a0 : Mat) (hm : m < n) (h : Ech n m a) (hd : a.get m m = true)
+    (hp : Pay n a0 a.get) : Ech n (m + 1) (elimBelow m m a) ∧ Pay n a0 (elimBelow m m a).get := by
+  have hrow : (a.getD m []).length = n + n := h.shape.2 m hm
+  have pm : ∀ c, c < m → a.get m c = false := fun c hc => h.low c hc m hc hm
+  have full : ∀ j c, (elimBelow m m a).get j c = (a.get j c != ((decide (m < j) && a.get j m) && a.get m c)) := by
+    intro j c
+    rw [elimBelow_eq, get_elimP _ _ _ _ n (n + n) h.shape hrow]
+    show (a.get j c != (decide (m < j) && a.get j m && decide (m ≤ c) && a.get m c)) = _
+    by_cases hc : m ≤ c
+    · simp [hc]
+    · rw [pm c (by omega)]; simp
+  refine ⟨⟨?_, ?_, ?_⟩, ?_⟩
+  · rw [elimBelow_eq]; exact shape_elimP _ _ _ _ n (n + n) h.shape hrow
+  · intro c hc
+    rw [full]
+    have : decide (m < c) = false := by simp; omega
+    rw [this]
+    by_cases e : c = m
+    · subst e; simpa using hd
+    · simpa using h.diag c (by omega)
+  · intro c hc r hcr hr
+    rw [full]
+    by_cases e : c = m
+    · subst e
+      have : decide (c < r) = true := by simpa using hcr
+      rw [this, hd]; cases a.get r c <;> rfl
+    · rw [h.low c (by omega) r hcr hr, pm c (by omega)]; simp
+  · refine pay_rowop n a0 a.get _ (addE (fun j => decide (m < j) && a.get j m) m)
+      (fun r hr c _ => addE_invol n _ m hm (by simp) r c hr) (fun r hr c => ?_) hp
+    rw [full, mmul_addE n _ m _ r c hr hm]
+
+theorem swap_step (n m k : Nat) (a : BMat) (a0 : Mat) (hmk : m < k) (hk : k < n) (h : Ech n m a)
+    (hp : Pay n a0 a.get) :
+    Ech n m (swapFrom m m k a) ∧ Pay n a0 (swapFrom m m k a).get ∧ (swapFrom m m k a).get m m = a.get k m := by
+  have hm : m < n := by omega
+  have pm : ∀ c, c < m → a.get m c = false := fun c hc => h.low c hc m hc hm
+  have pk : ∀ c, c < m → a.get k c = false := fun c hc => h.low c hc k (by omega) hk
+  have full : ∀ j c, (swapFrom m m k a).get j c = a.get (swapσ m k j) c := by
+    intro j c
+    rw [get_swapFrom m m k a n (n + n) h.shape hm hk]
+    unfold swapσ
+    by_cases hc : m ≤ c
+    · simp only [hc, if_true]
+      split
+      · rfl
+      · split <;> rfl
+    · simp only [hc, if_false]
+      split
+      · next e => rw [e, pm c (by omega), pk c (by omega)]
+      · split
+        · next e => rw [e, pm c (by omega), pk c (by omega)]
+        · rfl
+  refine ⟨⟨?_, ?_, ?_⟩, ?_, ?_⟩
+  · exact shape_swapFrom m m k a n (n + n) h.shape hm hk
+  · intro c hc
+    rw [full]
+    have : swapσ m k c = c := by unfold swapσ; rw [if_neg (by omega), if_neg (by omega)]
+    rw [this]; exact h.diag c hc
+  · intro c hc r hcr hr
+    rw [full]
+    unfold swapσ; split
+    · exact h.low c hc m hc hm
+    · split
+      · exact h.low c hc k (by omega) hk
+      · exact h.low c hc r hcr hr
+  · refine pay_rowop n a0 a.get _ (swapE m k) (fun r hr c _ => swapE_invol n m k hm hk r c hr) (fun r hr c => ?_) hp
+    rw [full, mmul_swapE n m k _ r c hm hk hr]
+  · rw [full]
+    have : swapσ m k m = k := by unfold swapσ; rw [if_neg (by omega), if_pos rfl]
+    rw [this]
+
+
+theorem fwd_inv (n : Nat) (a0 : Mat) (fuel : Nat) : ∀ (i : Nat) (a : BMat), i + fuel = n → Ech n i a →
+    Pay n a0 a.get →
+    (∀ a', z2invFwd n fuel i a = some a' → Ech n n a' ∧ Pay n a0 a'.get) ∧
+    (z2invFwd n fuel i a = none → ∃ i' a', i' < n ∧ Ech n i' a' ∧ Pay n a0 a'.get ∧
+      ∀ r, i' ≤ r → r < n → a'.get r i' = false) := by
+  induction fuel with
+  | zero =>
+    intro i a hi h hp
+    have : i = n := by omega
+    subst this
+    refine ⟨fun a' e => ?_, fun e => ?_⟩
+    · simp only [z2invFwd, Option.some.injEq] at e; subst e; exact ⟨h, hp⟩
+    · simp [z2invFwd] at e
+  | succ fuel ih =>
+    intro i a hi h hp
+    have hin : i < n := by omega
+    by_cases hd : a.get i i = true
+    · have st := elimBelow_step n i a a0 hin h hd hp
+      have := ih (i + 1) (elimBelow i i a) (by omega) st.1 st.2
+      simp only [z2invFwd, hd, if_true]
+      exact this
+    · cases hf : findPivot a i (i + 1) (n - (i + 1)) with
+      | none =>
+        have e0 : z2invFwd n (fuel + 1) i a = none := by simp only [z2invFwd, hd, hf]; rfl
+        rw [e0]
+        refine ⟨fun a' e => by simp at e, fun _ => ⟨i, a, hin, h, hp, fun r h1 h2 => ?_⟩⟩
+        by_cases e : r = i
+        · subst e; simpa using hd
+        · exact findPivot_none a i (i + 1) _ hf r (by omega) (by omega)
+      | some k =>
+        have e0 : z2invFwd n (fuel + 1) i a = z2invFwd n fuel (i + 1) (elimBelow i i (swapFrom i i k a)) := by
+          simp only [z2invFwd, hd, hf]; rfl
+        rw [e0]
+        have hk := findPivot_some a i (i + 1) _ k hf
+        have s1 := swap_step n i k a a0 (by omega) (by omega) h hp
+        have st := elimBelow_step n i _ a0 hin s1.1 (by rw [s1.2.2]; exact hk.2.2) s1.2.1
+        exact ih (i + 1) _ (by omega) st.1 st.2
+
+structure BEch (n j : Nat) (a : BMat) : Prop where
+  shape : Shape a n (n + n)
+  diag : ∀ c, c < n → a.get c c = true
+  low : ∀ c, c < n → ∀ r, c < r → r < n → a.get r c = false
+  up : ∀ c, j < c → c < n → ∀ r, r < c → a.get r c = false
+
+theorem elimAbove_step (n j : Nat) (a : BMat) (a0 : Mat) (hj : j + 1 < n) (h : BEch n (j + 1) a)
+    (hp : Pay n a0 a.get) : BEch n j (elimAbove (j + 1) a) ∧ Pay n a0 (elimAbove (j + 1) a).get := by
+  generalize hi : j + 1 = i at *
+  have hrow : (a.getD i []).length = n + n := h.shape.2 i hj
+  have pi : ∀ c, c < i → a.get i c = false := fun c hc => h.low c (by omega) i hc hj
+  have full : ∀ r c, (elimAbove i a).get r c = (a.get r c != ((decide (r < i) && a.get r i) && a.get i c)) := by
+    intro r c
+    rw [elimAbove_eq, get_elimP _ _ _ _ n (n + n) h.shape hrow]
+    show (a.get r c != (decide (r < i) && a.get r i && decide (i ≤ c) && a.get i c)) = _
+    by_cases hc : i ≤ c
+    · simp [hc]
+    · rw [pi c (by omega)]; simp
+  refine ⟨⟨?_, ?_, ?_, ?_⟩, ?_⟩
+  · rw [elimAbove_eq]; exact shape_elimP _ _ _ _ n (n + n) h.shape hrow
+  · intro c hc
+    rw [full, h.diag c hc]
+    by_cases e : c < i
+    · rw [pi c e]; simp
+    · have : decide (c < i) = false := by simpa using e
+      rw [this]; rfl
+  · intro c hc r hcr hr
+    rw [full, h.low c hc r hcr hr]
+    by_cases e : r < i
+    · rw [pi c (by omega)]; simp
+    · have : decide (r < i) = false := by simpa using e
+      rw [this]; rfl
+  · intro c hjc hc r hrc
+    rw [full]
+    by_cases e : c = i
+    · subst e
+      have : decide (r < c) = true := by simpa using hrc
+      rw [this, h.diag c hc]; cases a.get r c <;> rfl
+    · rw [h.up c (by omega) hc r hrc, h.up c (by omega) hc i (by omega)]; simp
+  · refine pay_rowop n a0 a.get _ (addE (fun r => decide (r < i) && a.get r i) i)
+      (fun r hr c _ => addE_invol n _ i hj (by simp) r c hr) (fun r hr c => ?_) hp
+    rw [full, mmul_addE n _ i _ r c hr hj]
+
+theorem bwd_inv (n : Nat) (a0 : Mat) (j : Nat) : ∀ (a : BMat), j ≤ n - 1 → BEch n j a → Pay n a0 a.get →
+    BEch n 0 (z2invBwd j a) ∧ Pay n a0 (z2invBwd j a).get := by
+  induction j with
+  | zero => intro a _ h hp; exact ⟨h, hp⟩
+  | succ j ih =>
+    intro a hj h hp
+    have st := elimAbove_step n j a a0 (by omega) h hp
+    simp only [z2invBwd]
+    exact ih _ (by omega) st.1 st.2
+
+
+/-! ## §5 `z2inv` -/
+
+/-- the augmented matrix `[A | 1]` built by `z2inv` -/
+def aug (A : BMat) : BMat := A.mapIdx fun i row => row ++ unitRow A.length i
+
+theorem shape_aug (A : BMat) (n : Nat) (hA : Shape A n n) : Shape (aug A) n (n + n) := by
+  refine ⟨by simpa [aug] using hA.1, fun j hj => ?_⟩
+  have hj' : j < A.length := by rw [hA.1]; exact hj
+  simp only [aug, getD_mapIdx _ _ _ hj', List.length_append, hA.2 j hj, unitRow, List.length_map,
+    List.length_range, hA.1]
+
+theorem get_aug_left (A : BMat) (n : Nat) (hA : Shape A n n) (r c : Nat) (hr : r < n) (hc : c < n) :
+    (aug A).get r c = A.get r c := by
+  have hr' : r < A.length := by rw [hA.1]; exact hr
+  have hl := hA.2 r hr
+  simp only [BMat.get, aug, getD_mapIdx _ _ _ hr', List.getD_eq_getElem?_getD (l := _ ++ _)]
+  rw [List.getElem?_append_left (by omega)]
+  simp [List.getD_eq_getElem?_getD]
+
+theorem get_aug_right (A : BMat) (n : Nat) (hA : Shape A n n) (r c : Nat) (hr : r < n) (hc : c < n) :
+    (aug A).get r (n + c) = ident r c := by
+  have hr' : r < A.length := by rw [hA.1]; exact hr
+  have hl := hA.2 r hr
+  simp only [BMat.get, aug, getD_mapIdx _ _ _ hr', List.getD_eq_getElem?_getD (l := _ ++ _)]
+  rw [List.getElem?_append_right (by omega)]
+  have : n + c - (A.getD r []).length = c := by omega
+  rw [this, hA.1]
+  simp only [unitRow, List.getElem?_map, List.getElem?_range hc, Option.map_some, Option.getD_some, ident]
+  exact BEq.comm
+
+theorem no_linv_of_zero_col (n i : Nat) (C L : Mat) (hi : i < n)
+    (hCL : ∀ r, r < n → ∀ c, c < n → mmul n C L r c = ident r c)
+    (diag : ∀ c, c < i → L c c = true) (low : ∀ c, c < i → ∀ r, c < r → r < n → L r c = false)
+    (zero : ∀ r, i ≤ r → r < n → L r i = false) : False := by
+  have hw : ∀ m, m ≤ i → ∀ c, c < m → C i c = false := by
+    intro m
+    induction m with
+    | zero => intro _ c hc; omega
+    | succ m ih =>
+      intro hm c hc
+      by_cases e : c = m
+      · subst e
+        have h1 := hCL i hi c (by omega)
+        simp only [mmul] at h1
+        rw [xsum_single _ c n (by omega) (fun k hk hne => by
+          by_cases hkc : k < c
+          · rw [ih (by omega) k hkc]; rfl
+          · rw [low c (by omega) k (by omega) hk]; simp)] at h1
+        rw [diag c (by omega)] at h1
+        have : ident i c = false := by simp [ident]; omega
+        rw [this] at h1
+        simpa using h1
+      · exact ih (by omega) c (by omega)
+  have h1 := hCL i hi i hi
+  simp only [mmul] at h1
+  rw [xsum_false _ n (fun k hk => by
+    by_cases hki : k < i
+    · rw [hw i (Nat.le_refl _) k hki]; rfl
+    · rw [zero k (by omega) hk]; simp)] at h1
+  simp [ident] at h1
+
+
+theorem z2inv_eq (A : BMat) : z2inv A =
+    match z2invFwd A.length A.length 0 (aug A) with
+    | none => none
+    | some a => some ((z2invBwd (A.length - 1) a).map fun row => row.drop A.length) := rfl
+
+theorem get_map_drop (a : BMat) (n r c : Nat) :
+    BMat.get (a.map fun row => row.drop n) r c = a.get r (n + c) := by
+  simp only [BMat.get, List.getD_eq_getElem?_getD, List.getElem?_map]
+  cases a[r]? <;> simp
+
+theorem ech_aug (A : BMat) (n : Nat) (hA : Shape A n n) : Ech n 0 (aug A) :=
+  ⟨shape_aug A n hA, fun c hc => by omega, fun c hc => by omega⟩
+
+/-- what a successful run of `z2inv` yields, at function level -/
+theorem z2inv_some (A B : BMat) (n : Nat) (hA : Shape A n n) (h : z2inv A = some B) :
+    Shape B n n ∧ ∃ T S : Mat, (∀ r, r < n → ∀ c, c < n → mmul n S T r c = ident r c) ∧
+      (∀ r, r < n → ∀ c, c < n → B.get r c = T r c) ∧
+      (∀ r, r < n → ∀ c, c < n → mmul n T A.get r c = ident r c) := by
+  rw [z2inv_eq, hA.1] at h
+  have f := fwd_inv n (aug A).get n 0 (aug A) (by omega) (ech_aug A n hA) (pay_init n _)
+  cases hf : z2invFwd n n 0 (aug A) with
+  | none => rw [hf] at h; simp at h
+  | some a1 =>
+    rw [hf] at h
+    simp only [Option.some.injEq] at h
+    obtain ⟨e1, p1⟩ := f.1 a1 hf
+    have b0 : BEch n (n - 1) a1 := ⟨e1.shape, e1.diag, e1.low, fun c h1 h2 => by omega⟩
+    obtain ⟨b, ⟨T, S, hST, hT⟩⟩ := bwd_inv n (aug A).get (n - 1) a1 (Nat.le_refl _) b0 p1
+    have hB : ∀ r c, B.get r c = (z2invBwd (n - 1) a1).get r (n + c) := by
+      intro r c; rw [← h, get_map_drop]
+    refine ⟨⟨?_, ?_⟩, T, S, hST, ?_, ?_⟩
+    · rw [← h, List.length_map]; exact b.shape.1
+    · intro j hj
+      have hj' : j < (z2invBwd (n - 1) a1).length := by rw [b.shape.1]; exact hj
+      rw [← h]
+      simp only [List.getD_eq_getElem?_getD, List.getElem?_map, List.getElem?_eq_getElem hj', Option.map_some,
+        Option.getD_some, List.length_drop]
+      have := b.shape.2 j hj
+      simp only [List.getD_eq_getElem?_getD, List.getElem?_eq_getElem hj', Option.getD_some] at this
+      omega
+    · intro r hr c hc
+      rw [hB, hT r hr]
+      have : mmul n T (aug A).get r (n + c) = mmul n T ident r c := by
+        simp only [mmul]; apply xsum_congr; intro k hk; rw [get_aug_right A n hA k c hk hc]
+      rw [this, mmul_ident_right n T r c hc]
+    · intro r hr c hc
+      rw [mmul_congr_right n T _ (aug A).get r c (fun k hk => (get_aug_left A n hA k c hk hc).symm), ← hT r hr]
+      simp only [ident]
+      by_cases e : r = c
+      · subst e; rw [b.diag r hr]; simp
+      · have : (r == c) = false := by simpa using e
+        rw [this]
+        by_cases e2 : r < c
+        · exact b.up c (by omega) hc r e2
+        · exact b.low c hc r (by omega) hr
+
+/-- entrywise form of `bmul X Y n = bident n` for square matrices -/
+theorem bmul_eq_bident_iff (X Y : BMat) (n : Nat) (hX : Shape X n n) :
+    bmul X Y n = bident n ↔ ∀ r, r < n → ∀ c, c < n → mmul n X.get Y.get r c = ident r c := by
+  constructor
+  · intro h r hr c hc
+    rw [← get_bmul X Y n n r c hc (by rw [hX.2 r hr]; exact Nat.le_refl _), h, get_bident n r c hr hc]
+  · intro h
+    have s := shape_bmul X Y n
+    rw [hX.1] at s
+    apply BMat_ext _ _ n n s (shape_bident n)
+    intro r hr c hc
+    rw [get_bmul X Y n n r c hc (by rw [hX.2 r hr]; exact Nat.le_refl _), h r hr c hc, get_bident n r c hr hc]
+
+theorem z2inv_left (A B : BMat) (n : Nat) (hA : IsSquare A n) (h : z2inv A = some B) :
+    IsSquare B n ∧ bmul B A n = bident n := by
+  obtain ⟨sB, T, S, _, hBT, hTA⟩ := z2inv_some A B n (shape_of_isSquare A n hA) h
+  refine ⟨isSquare_of_shape B n sB, (bmul_eq_bident_iff B A n sB).mpr fun r hr c hc => ?_⟩
+  rw [mmul_congr_left n B.get T A.get r c (fun k hk => hBT r hr k hk)]
+  exact hTA r hr c hc
+
+theorem z2inv_right (A B : BMat) (n : Nat) (hA : IsSquare A n) (h : z2inv A = some B) :
+    bmul A B n = bident n := by
+  have sA := shape_of_isSquare A n hA
+  obtain ⟨sB, T, S, hST, hBT, hTA⟩ := z2inv_some A B n sA h
+  refine (bmul_eq_bident_iff A B n sA).mpr fun r hr c hc => ?_
+  have hAS : ∀ k, k < n → A.get r k = S r k := by
+    intro k hk
+    rw [← mmul_ident_left n A.get r k hr, ← mmul_congr_left n _ ident A.get r k (fun j hj => hST r hr j hj),
+      mmul_assoc, mmul_congr_right n S _ ident r k (fun j hj => hTA j hj k hk), mmul_ident_right n S r k hk]
+  rw [mmul_congr_left n A.get S B.get r c hAS, mmul_congr_right n S B.get T r c (fun k hk => hBT k hk c hc)]
+  exact hST r hr c hc
+
+theorem z2inv_complete (A : BMat) (n : Nat) (hA : IsSquare A n) (h : z2inv A = none) :
+    ¬ ∃ B, IsSquare B n ∧ bmul B A n = bident n := by
+  have sA := shape_of_isSquare A n hA
+  rintro ⟨B, hB, hBA⟩
+  have sB := shape_of_isSquare B n hB
+  have hBA' := (bmul_eq_bident_iff B A n sB).mp hBA
+  rw [z2inv_eq, sA.1] at h
+  have f := fwd_inv n (aug A).get n 0 (aug A) (by omega) (ech_aug A n sA) (pay_init n _)
+  cases hf : z2invFwd n n 0 (aug A) with
+  | some a1 => rw [hf] at h; simp at h
+  | none =>
+    obtain ⟨i, a, hi, e, ⟨T, S, hST, hT⟩, hz⟩ := f.2 hf
+    have hL : ∀ j, j < n → ∀ c, c < n → a.get j c = mmul n T A.get j c := by
+      intro j hj c hc
+      rw [hT j hj, mmul_congr_right n T _ A.get j c (fun k hk => get_aug_left A n sA k c hk hc)]
+    refine no_linv_of_zero_col n i (mmul n B.get S) a.get hi (fun r hr c hc => ?_) e.diag e.low hz
+    rw [mmul_assoc, ← hBA' r hr c hc]
+    apply mmul_congr_right
+    intro k hk
+    rw [mmul_congr_right n S a.get (mmul n T A.get) k c (fun j hj => hL j hj c hc), ← mmul_assoc,
+      mmul_congr_left n _ ident A.get k c (fun j hj => hST k hk j hj), mmul_ident_left n A.get k c hk]
+
+
+/-! ## §6 general facts about `bmul` -/
+
+theorem length_bident (n : Nat) : (bident n).length = n := by simp [bident]
+
+/-- `1·A = A` for an `n × m` matrix -/
+theorem bident_bmul (A : BMat) (n m : Nat) (hA : Shape A n m) : bmul (bident n) A m = A := by
+  have s := shape_bmul (bident n) A m
+  rw [length_bident] at s
+  apply BMat_ext _ _ n m s hA
+  intro r hr c hc
+  rw [get_bmul (bident n) A m n r c hc (by rw [(shape_bident n).2 r hr]; exact Nat.le_refl _),
+    mmul_congr_left n _ ident A.get r c (fun k hk => get_bident n r k hr hk), mmul_ident_left n A.get r c hr]
+
+/-- `A·1 = A` for an `n × m` matrix -/
+theorem bmul_bident (A : BMat) (n m : Nat) (hA : Shape A n m) : bmul A (bident m) m = A := by
+  have s := shape_bmul A (bident m) m
+  rw [hA.1] at s
+  apply BMat_ext _ _ n m s hA
+  intro r hr c hc
+  rw [get_bmul A (bident m) m m r c hc (by rw [hA.2 r hr]; exact Nat.le_refl _),
+    mmul_congr_right m A.get _ ident r c (fun k hk => get_bident m k c hk hc), mmul_ident_right m A.get r c hc]
+
+/-- `(A·B)·C = A·(B·C)` for `A : a × b`, `B : b × m`, any `C`, result with `p` columns -/
+theorem bmul_assoc (A B C : BMat) (a b m p : Nat) (hA : Shape A a b) (hB : Shape B b m) :
+    bmul (bmul A B m) C p = bmul A (bmul B C p) p := by
+  have s1 := shape_bmul (bmul A B m) C p
+  have s2 := shape_bmul A (bmul B C p) p
+  have sAB := shape_bmul A B m
+  rw [hA.1] at sAB s2
+  rw [sAB.1] at s1
+  apply BMat_ext _ _ a p s1 s2
+  intro r hr c hc
+  rw [get_bmul (bmul A B m) C p m r c hc (by rw [sAB.2 r hr]; exact Nat.le_refl _),
+    get_bmul A (bmul B C p) p b r c hc (by rw [hA.2 r hr]; exact Nat.le_refl _),
+    mmul_congr_left m _ (mmul b A.get B.get) C.get r c (fun k hk =>
+      get_bmul A B m b r k hk (by rw [hA.2 r hr]; exact Nat.le_refl _)),
+    mmul_congr_right b A.get _ (mmul m B.get C.get) r c (fun k hk =>
+      get_bmul B C p m k c hc (by rw [hB.2 k hk]; exact Nat.le_refl _)),
+    mmul_assoc]
+
+theorem isSquare_bmul (A B : BMat) (n : Nat) (hA : IsSquare A n) : IsSquare (bmul A B n) n := by
+  apply isSquare_of_shape
+  have := shape_bmul A B n
+  rw [hA.1] at this; exact this
+
+theorem isSquare_bident (n : Nat) : IsSquare (bident n) n := isSquare_of_shape _ n (shape_bident n)
+
+end Z2
+
+/-! square-matrix corollaries in terms of `IsSquare` -/
+
+theorem bident_bmul_sq (A : BMat) (n : Nat) (hA : IsSquare A n) : bmul (bident n) A n = A :=
+  Z2.bident_bmul A n n (Z2.shape_of_isSquare A n hA)
+
+theorem bmul_bident_sq (A : BMat) (n : Nat) (hA : IsSquare A n) : bmul A (bident n) n = A :=
+  Z2.bmul_bident A n n (Z2.shape_of_isSquare A n hA)
+
+theorem bmul_assoc_sq (A B C : BMat) (n : Nat) (hA : IsSquare A n) (hB : IsSquare B n) :
+    bmul (bmul A B n) C n = bmul A (bmul B C n) n :=
+  Z2.bmul_assoc A B C n n n n (Z2.shape_of_isSquare A n hA) (Z2.shape_of_isSquare B n hB)
 
 end PC
